@@ -37,10 +37,20 @@ package crypto
 //@ -- (*Key).Verify: assumed contract in zz_contracts_c30_verif.go (requires publicKey != nil; total)
 
 //@ -- BatchVerify: empty / unequal lengths / nil elements are rejected (false) before any dereference. Total.
+//@ -- C02 (T-CRYPTO): a batch that verifies consists of signatures each of which verifies on its own (SigOK is the uninterpreted predicate
+//@ -- of (*Key).Verify, zz_contracts_c30_verif.go). Batch verification is probabilistic (random linear combination): this is the assumption that
+//@ -- batch and single verification agree; the structural part (equal non-zero lengths, no nil element) is visible in the code.
 //@ assume func BatchVerify(msg, keys, sigs)
 //@   modifies nothing
+//@   ensures [c02-batch] result ==> len(keys) == len(sigs) && len(keys) > 0 &&
+//@       (forall a int :: 0 <= a && a < len(keys) ==> keys[a] != nil && sigs[a] != nil && SigOK(seq(*keys[a]), seq(msg), seq(*sigs[a])))
 
 //@ -- AggregateVerify: nil signature, empty / unordered / out-of-range signers, nil or undecodable publics are reported as errors. Total.
+//@ -- C02 (T-CRYPTO): AggSigner(sig, msg, n, pos, index, key) reads "there are a key vector and a strictly increasing signer list of n entries whose entry
+//@ -- number pos is (index, key) such that sig verifies on msg under the weighted aggregate key of exactly that vector and list" (WKeyOf / SigOK of
+//@ -- zz_contracts_c14_verif.go). Uninterpreted; introduced by the `assumes [c02-transcript]` clause of the verified AggregateVerify contract (C14 file),
+//@ -- which is the pointwise reading of its [sig] postcondition. It lets C02 name the verified keys by VALUE, without the caller-local key vector.
+//@ uninterp AggSigner(sig mathint, msg mathint, n mathint, pos mathint, index mathint, key mathint) bool
 //@ -- AggregateVerify: VERIFIED contract in zz_contracts_c14_verif.go (modifies nothing, total; it replaces the assumed
 //@ -- `modifies nothing` that stood here)
 
